@@ -29,6 +29,8 @@ def _counted_prove():
 rt.backend.prove = _counted_prove
 if not cfg["autoprove"]:
     rt.autoprove = False
+if cfg.get("operation"):
+    rt.operation = cfg["operation"]          # a separate keygen / prove / verify step was requested
 with open("backend_name", "w") as f:
     f.write(str(rt.backend_name))
 
